@@ -130,6 +130,33 @@ func isoDenseConfigYAML(tree *SrcTree, scriptsDir string) string {
 	return b.String()
 }
 
+// isoPlainConfigYAML is the deterministic configuration WITHOUT any override block: Config.Get then hands every
+// packager an Info whose slices and maps are the configuration's own (nothing was merged into a copy), so a packager
+// that writes through them writes into the configuration.  It configures a changelog and has user entries at the
+// places packagers generate entries at (of types / with tags that keep every packaging successful).
+func isoPlainConfigYAML(tree *SrcTree, scriptsDir string) string {
+	changelog := isoEnsureAux(scriptsDir)
+	q := strconv.Quote
+	src := func(rel string) string { return q(filepath.Join(tree.Root, rel)) }
+	var b strings.Builder
+	b.WriteString("name: isoplain\narch: arm7\nversion: \"1.4.0-rc1\"\nmtime: 2023-11-14T22:13:20Z\ndescription: no override blocks\nmaintainer: \"Verif <verif@example.com>\"\n")
+	b.WriteString("depends: [libc, \"zlib (>= 1.2)\"]\nprovides: [virt]\nrpm:\n  buildhost: buildhost.example\ndeb:\n  fields:\n    Bugs: x\nipk:\n  fields:\n    Custom: y\n")
+	if changelog != "" {
+		fmt.Fprintf(&b, "changelog: %s\n", q(changelog))
+	}
+	fmt.Fprintf(&b, "scripts:\n  postinstall: %s\n", q(filepath.Join(scriptsDir, "postinstall.sh")))
+	b.WriteString("contents:\n")
+	fmt.Fprintf(&b, "  - src: %s\n    dst: /usr/share/doc/isoplain/changelog.Debian.gz\n    type: doc\n", src("share/doc/README"))
+	fmt.Fprintf(&b, "  - src: %s\n    dst: /usr/bin/tool\n", src("bin/tool"))
+	fmt.Fprintf(&b, "  - src: %s\n    dst: /etc/app/app.conf\n    type: config|noreplace\n", src("etc/app.conf"))
+	fmt.Fprintf(&b, "  - src: %s\n    dst: /usr/share/doc/isoplain/README.rpm\n    packager: rpm\n    type: readme\n", src("share/doc/README"))
+	b.WriteString("  - dst: /var/lib/isoplain\n    type: dir\n    file_info:\n      owner: app\n")
+	b.WriteString("  - dst: /var/log/isoplain.log\n    type: ghost\n")
+	fmt.Fprintf(&b, "  - src: %s\n    dst: /opt/isoplain\n    type: tree\n", src("tree"))
+	b.WriteString("  - src: /usr/lib/isoplain/no-such-target\n    dst: /usr/bin/tool-link\n    type: symlink\n")
+	return b.String()
+}
+
 // genIsoConfigYAML produces the text of an nfpm configuration whose sources
 // point into tree; every random choice comes from r.
 func genIsoConfigYAML(r *rng.R, tree *SrcTree, scriptsDir string) string {
@@ -199,7 +226,8 @@ func genIsoConfigYAML(r *rng.R, tree *SrcTree, scriptsDir string) string {
 	if r.Chance(1, 4) {
 		b.WriteString("archlinux:\n  packager: \"Packer <packer@example.com>\"\n")
 	}
-	if changelog != "" && r.Chance(1, 3) {
+	hasChangelog := changelog != "" && r.Chance(1, 2)
+	if hasChangelog {
 		fmt.Fprintf(&b, "changelog: %s\n", q(changelog))
 	}
 	if r.Chance(2, 3) {
@@ -273,6 +301,16 @@ func genIsoConfigYAML(r *rng.R, tree *SrcTree, scriptsDir string) string {
 	}
 	if r.Chance(1, 4) {
 		fmt.Fprintf(&b, "  - dst: /var/lib/%s-apk\n    type: dir\n    packager: apk\n    file_info:\n      owner: app\n", name)
+	}
+	if hasChangelog && r.Chance(2, 3) {
+		// a user entry at the very path deb generates its changelog at – of a type (or with a tag) that keeps it out
+		// of the deb, so that every packaging succeeds: the rpm (or every other format) ships it
+		fmt.Fprintf(&b, "  - src: %s\n    dst: /usr/share/doc/%s/changelog.Debian.gz\n", src("share/doc/README"), name)
+		if r.Bool() {
+			b.WriteString("    type: doc\n")
+		} else {
+			b.WriteString("    packager: rpm\n")
+		}
 	}
 	// overrides for 0..3 formats
 	nb := r.Intn(4)
@@ -679,7 +717,7 @@ func isoPermutations(xs []string, visit func([]string)) {
 func isoCountFeatures(fam *report.Family, y string) {
 	fam.Count("configs")
 	for label, needle := range map[string]string{
-		"cfg:overrides": "\noverrides:", "cfg:changelog": "\nchangelog:", "cfg:ghost": "type: ghost", "cfg:symlink": "type: symlink",
+		"cfg:overrides": "\noverrides:", "cfg:changelog": "\nchangelog:", "cfg:entry-at-deb-changelog-path": "/changelog.Debian.gz", "cfg:ghost": "type: ghost", "cfg:symlink": "type: symlink",
 		"cfg:tree": "type: tree", "cfg:glob": "*.conf", "cfg:packager-tag": "packager: ", "cfg:ipk-fields": "Maintainer: dup",
 		"cfg:deb-fields": "Bugs: x", "cfg:override-umask": "umask: 0077", "cfg:scripts": "\nscripts:", "cfg:empty-maintainer": "maintainer: \"\"",
 	} {
@@ -718,7 +756,7 @@ func runC11(c *Ctx) error {
 	fam := c.Rep.Family("orders", "for each generated configuration: all 120 orders of the five packagings (exhaustive), each order run on ONE freshly parsed configuration with the CLI's packaging step for a directory target (Config.Get, WithDefaults, ConventionalFileName, Package on the same Info); every package compared byte for byte with the package built from its own freshly parsed configuration; non-trivial = every order (five packagings)")
 	fam.Exhaustive = true
 	r := c.R.Fork("c11-orders")
-	nCfg := c.N(4, 60)
+	nCfg := c.N(5, 60)
 	for k := 0; k < nCfg; k++ {
 		y := genIsoConfigYAML(r, tree, scripts)
 		if k == 0 {
@@ -727,6 +765,9 @@ func runC11(c *Ctx) error {
 		if k == 1 {
 			// the same with an architecture every format translates (and none may translate twice)
 			y = strings.Replace(isoDenseConfigYAML(tree, scripts), "arch: amd64", "arch: arm6", 1)
+		}
+		if k == 2 {
+			y = isoPlainConfigYAML(tree, scripts)
 		}
 		base, err := isoBaselines(y)
 		if err != nil {
@@ -769,11 +810,16 @@ func runC11(c *Ctx) error {
 		slot := r2.Intn(len(pool))
 		if i < 40 {
 			slot = 0 // the dense configuration gets the first sequences
+		} else if i < 70 && len(pool) > 1 {
+			slot = 1 // the configuration without override blocks the next ones
 		}
 		if pool[slot] == nil {
 			y := genIsoConfigYAML(r2, tree, scripts)
 			if slot == 0 {
 				y = isoDenseConfigYAML(tree, scripts)
+			}
+			if slot == 1 {
+				y = isoPlainConfigYAML(tree, scripts)
 			}
 			base, err := isoBaselines(y)
 			if err != nil {
